@@ -6,14 +6,13 @@ The specification decoders (`Model/Flate/Spec.lean` by the C16 builder: RFC 1951
 RFC 1952; `Model/StdSpecLzw.lean`: GIF-flavour LZW) are total, deterministic Lean functions by construction
 (structural recursion on fuel), so `inflate_total` / `inflate_deterministic` need no separate proof.
 
--- OPEN: theorem wuffs_deflate_refines_spec :
---   ∀ (s : List UInt8) (out : List UInt8),
---     (std/deflate decoder.transform_io, as generated C, on source s, any chunking) ends `ok` with output out
---       ↔ Flate.Spec.inflate s.toArray = some (out.toArray, _)
---   Not expected to be proved here: it needs the semantics of the whole std/deflate program (fast paths,
---   history ring buffer, suspension).  The tie is the three-way differential of harness/cmd/c07
---   (payload → Go encoder → Wuffs C decoder ≡ Lean spec decoder ≡ payload), sampled.
--- OPEN: theorem wuffs_lzw_refines_spec, wuffs_gzip_refines_spec, wuffs_zlib_refines_spec : likewise.
+-- `wuffs_deflate_refines_spec` is no longer only a comment: see Props/C07Deflate.lean
+--   (`wuffs_deflate_refines_spec_partial`, `wuffs_deflate_stored_fixed`: the mirror of std/deflate's slow path returns
+--   what the RFC 1951 specification decoder returns, unconditionally for stored and fixed-Huffman blocks, modulo the
+--   stated obligation `DynRefines` for dynamic blocks).  Still sampled only: the fast paths, suspension across
+--   transform_io calls, and:
+-- OPEN: theorem wuffs_lzw_refines_spec, wuffs_gzip_refines_spec, wuffs_zlib_refines_spec (the wrappers and LZW:
+--   three-way differential of harness/cmd/c07 only).
 -- OPEN: theorem lzw_roundtrip : ∀ lw data, 2 ≤ lw → lw ≤ 8 → (∀ b ∈ data, b.toNat < 2 ^ lw) →
 --     StdSpec.Lzw.decode lw (StdSpec.Lzw.encode lw data).toArray = (.ok, data.toArray, _)
 --   (the literal-only reference encoder; checked on every generated LZW payload by the driver op `lzwenc` +
